@@ -1143,6 +1143,59 @@ def _tri(test, attrs):
     return None
 
 
+def _leaves(body):
+    """does this statement list always leave the enclosing block -- its last statement is return / raise / continue / break, or an
+    if / else both arms of which leave?"""
+    if not body:
+        return False
+    last = body[-1]
+    if isinstance(last, (ast.Return, ast.Raise, ast.Continue, ast.Break)):
+        return True
+    if isinstance(last, ast.If) and last.orelse:
+        return _leaves(last.body) and _leaves(last.orelse)
+    return False
+
+
+def _earlier_exits(par, x):
+    """guard clauses: the conditions under which statement `x` of a block of `par` is reached because an EARLIER `if` of the same
+    block left it (`if t: return ""` before x: x runs only when t is false) -> [(test, polarity)]"""
+    out = []
+    for fld in ("body", "orelse", "finalbody"):
+        lst = getattr(par, fld, None)
+        if isinstance(lst, list) and any(s_ is x for s_ in lst):
+            for s_ in lst:
+                if s_ is x:
+                    break
+                if isinstance(s_, ast.If):
+                    a, b = _leaves(s_.body), _leaves(s_.orelse)
+                    if a and not b:
+                        out.append((s_.test, False))
+                    elif b and not a:
+                        out.append((s_.test, True))
+    return out
+
+
+def _single_assignments(fn):
+    """{local name: the expression it is bound to} for the locals of a function that are stored exactly once, by a plain assignment
+    (`lo = r.temp_min`, `lo, hi = r.temp_min, r.temp_max`): a test on such a name is the test on that expression"""
+    stores, vals = {}, {}
+    for n in ast.walk(fn):
+        if isinstance(n, ast.Name) and isinstance(n.ctx, (ast.Store, ast.Del)):
+            stores[n.id] = stores.get(n.id, 0) + 1
+        elif isinstance(n, ast.arg):
+            stores[n.arg] = stores.get(n.arg, 0) + 1
+    for st in ast.walk(fn):
+        if isinstance(st, ast.Assign) and len(st.targets) == 1:
+            t, v = st.targets[0], st.value
+            if isinstance(t, ast.Name):
+                vals[t.id] = v
+            elif isinstance(t, ast.Tuple) and isinstance(v, ast.Tuple) and len(t.elts) == len(v.elts) and all(isinstance(e, ast.Name) for e in t.elts) \
+                    and not any(isinstance(e, ast.Starred) for e in v.elts):
+                for e, w in zip(t.elts, v.elts):
+                    vals[e.id] = w
+    return {k: v for k, v in vals.items() if stores.get(k) == 1}
+
+
 def _r11(ctx, pkg, regs, protos, consts, universal):
     """The renderer (`_assign_rates` and what it calls) writes C text of its own around each rate expression -- today the temperature
     window `if (Tgas>=.. && Tgas<..) { .. }`.  Those statements are pasted into EvalRates (reactions: the identifier must be one every
@@ -1180,52 +1233,99 @@ def _r11(ctx, pkg, regs, protos, consts, universal):
         return const_getattr(g2)
     handed_on = set()          # literal arguments accounted for inside the specialised callee
     scope, todo = [], [root]
+    sites = {}                 # id(function of the scope) -> [the expressions that call / mention it] (the root has none)
     while todo and len(scope) < 40:
         f = todo.pop()
         if any(f is g for g in scope):
             continue
         scope.append(f)
+        called = set()
         for c in ast.walk(f):
             if not isinstance(c, ast.Call):
                 continue
             fn_ = c.func
+            called.add(id(fn_))
+            g2 = None
             if isinstance(fn_, ast.Attribute) and isinstance(fn_.value, ast.Name) and fn_.value.id in ("self", "cls", "TemplateLoader"):
                 g = pkg.resolve("TemplateLoader", fn_.attr)[1]
                 if g is not None:
-                    todo.append(special(g, c, True))
+                    g2 = special(g, c, True)
             elif isinstance(fn_, ast.Name) and (TLOADER, fn_.id) in pkg.functions:
-                todo.append(special(pkg.functions[(TLOADER, fn_.id)], c, False))
+                g2 = special(pkg.functions[(TLOADER, fn_.id)], c, False)
             elif isinstance(fn_, ast.Name) and fn_.id in mclasses:
                 todo += [m for m in mclasses[fn_.id].body if isinstance(m, ast.FunctionDef)]
+            if g2 is not None:
+                todo.append(g2)
+                sites.setdefault(id(g2), []).append(c)
+        # a helper handed on by name (`map(self._window, reactions)`, `key=_window`) runs too
+        for c in ast.walk(f):
+            if id(c) in called or not isinstance(getattr(c, "ctx", None), ast.Load):
+                continue
+            g = None
+            if isinstance(c, ast.Attribute) and isinstance(c.value, ast.Name) and c.value.id in ("self", "cls", "TemplateLoader"):
+                g = pkg.resolve("TemplateLoader", c.attr)[1]
+                if g is not None and any(ast.unparse(d).split(".")[-1] in ("property", "cached_property", "setter") for d in g.decorator_list):
+                    g = None
+            elif isinstance(c, ast.Name) and (TLOADER, c.id) in pkg.functions:
+                g = pkg.functions[(TLOADER, c.id)]
+            if g is not None and g is not root:
+                todo.append(g)
+                sites.setdefault(id(g), []).append(c)
     # what a thermal process is: constants / constructor parameters its __init__ stores, and the instances of the package
     tp = pkg.cls("ThermalProcess")
     init = tp.methods.get("__init__")
     fixed, fed, stores = {}, {}, {}
+    # constants of the module / the class body, bound once (`UNLIMITED = -1.0`)
+    tmod = pkg.modules.get(tp.file)
+    mstores = {}
+    for nd in ast.walk(tmod) if tmod is not None else []:
+        if isinstance(nd, ast.Name) and isinstance(nd.ctx, (ast.Store, ast.Del)):
+            mstores[nd.id] = mstores.get(nd.id, 0) + 1
+    mconst = {st.targets[0].id: st.value for st in (tmod.body if tmod is not None else []) if isinstance(st, ast.Assign) and len(st.targets) == 1
+              and isinstance(st.targets[0], ast.Name) and mstores.get(st.targets[0].id) == 1}
+
+    def const_of(e, depth=0):
+        """the constant an expression of ThermalProcess stands for (a literal, a once-bound module constant, a class attribute), else `_tri`"""
+        if isinstance(e, ast.Constant) and not isinstance(e.value, str):
+            return e.value
+        if isinstance(e, ast.UnaryOp) and isinstance(e.op, ast.USub):
+            v = const_of(e.operand, depth)
+            return -v if v is not _tri and isinstance(v, (int, float)) and not isinstance(v, bool) else _tri
+        if depth < 4 and isinstance(e, ast.Name) and e.id in mconst:
+            return const_of(mconst[e.id], depth + 1)
+        if depth < 4 and isinstance(e, ast.Attribute) and isinstance(e.value, ast.Name) and e.value.id in ("self", "cls", "ThermalProcess") and e.attr in tp.attrs \
+                and e.attr not in stores:
+            return const_of(tp.attrs[e.attr], depth + 1)
+        return _tri
     if init is not None:
         ctx.saw(TPROC, "ThermalProcess.__init__")
         for m in tp.methods.values():
             for n in ast.walk(m):
                 if isinstance(n, ast.Attribute) and isinstance(n.ctx, ast.Store) and isinstance(n.value, ast.Name) and n.value.id == "self":
                     stores[n.attr] = stores.get(n.attr, 0) + 1
-        params = [a.arg for a in init.args.args[1:]]
+        params = [a.arg for a in init.args.args[1:]] + [a.arg for a in init.args.kwonlyargs]
         for st in init.body:
-            if isinstance(st, ast.Assign) and len(st.targets) == 1 and isinstance(st.targets[0], ast.Attribute) and isinstance(st.targets[0].value, ast.Name) \
-                    and st.targets[0].value.id == "self" and stores.get(st.targets[0].attr) == 1:
-                v = st.value
-                if isinstance(v, ast.UnaryOp) and isinstance(v.op, ast.USub) and isinstance(v.operand, ast.Constant):
-                    fixed[st.targets[0].attr] = -v.operand.value
-                elif isinstance(v, ast.Constant):
-                    fixed[st.targets[0].attr] = v.value
-                elif isinstance(v, ast.Name) and v.id in params:
-                    fed[st.targets[0].attr] = v.id
+            # `self.a = v`, `self.a = self.b = v`, `self.a, self.b = v, w`
+            pairs = []
+            if isinstance(st, ast.Assign):
+                for t in st.targets:
+                    if isinstance(t, ast.Tuple) and isinstance(st.value, ast.Tuple) and len(t.elts) == len(st.value.elts):
+                        pairs += list(zip(t.elts, st.value.elts))
+                    else:
+                        pairs.append((t, st.value))
+            elif isinstance(st, ast.AnnAssign) and st.value is not None:
+                pairs.append((st.target, st.value))
+            for t, v in pairs:
+                if isinstance(t, ast.Attribute) and isinstance(t.value, ast.Name) and t.value.id == "self" and stores.get(t.attr) == 1:
+                    c_ = const_of(v)
+                    if c_ is not _tri:
+                        fixed[t.attr] = c_
+                    elif isinstance(v, ast.Name) and v.id in params:
+                        fed[t.attr] = v.id
     # ... or that the class body fixes (`temp_min = -1.0`) and no method stores
     for a_, node_ in tp.attrs.items():
-        v = node_
-        if a_ not in fixed and a_ not in fed and not (init is not None and a_ in stores):
-            if isinstance(v, ast.UnaryOp) and isinstance(v.op, ast.USub) and isinstance(v.operand, ast.Constant):
-                fixed[a_] = -v.operand.value
-            elif isinstance(v, ast.Constant):
-                fixed[a_] = v.value
+        if a_ not in fixed and a_ not in fed and not (init is not None and a_ in stores) and const_of(node_) is not _tri:
+            fixed[a_] = const_of(node_)
     # attributes of thermal processes assigned from outside the class make their value unknown
     outside = {n.attr for f_, m in pkg.modules.items() for n in ast.walk(m) if isinstance(n, ast.Attribute) and isinstance(n.ctx, ast.Store)
                and not (isinstance(n.value, ast.Name) and n.value.id == "self") and n.attr in set(fixed) | set(fed)}
@@ -1259,92 +1359,180 @@ def _r11(ctx, pkg, regs, protos, consts, universal):
     if lists and all(t is not None and "reactions" in t for t in lists):
         tdecl |= set(universal)
     rdecl = set(universal) | CMATH | protos | consts | {"y", "k"}
-    parents = {}
+    parents, owner = {}, {}
     n = 0
     for f in scope:
         for p_ in ast.walk(f):
+            owner[id(p_)] = f
             for ch in ast.iter_child_nodes(p_):
                 parents[id(ch)] = p_
-        for node in ast.walk(f):
-            if not (isinstance(node, ast.Constant) and isinstance(node.value, str)):
-                continue
-            ids = [w for w in re.findall(r"[A-Za-z_]\w*", node.value) if w not in _C_WORDS]
-            if not ids or id(node) in handed_on:
-                continue
-            # where the text stands: not a docstring / message, and under which conditions
-            guards, x, skip = [], node, False
-            while id(x) in parents:
-                par = parents[id(x)]
-                if isinstance(par, ast.Expr) and par.value is x:
-                    skip = True       # docstring / bare string
-                if isinstance(par, (ast.Raise, ast.Assert)) or (isinstance(par, ast.Call) and ast.unparse(par.func).split(".")[0] in ("logging", "logger", "warnings", "print")):
+    locals_of = {id(f): _single_assignments(f) for f in scope}
+
+    def as_written(test, f):
+        """the test with the function's once-assigned locals replaced by what they stand for (`lo = r.temp_min; if lo > 0`)"""
+        env = locals_of.get(id(f)) or {}
+        for _ in range(3):
+            if not any(isinstance(x_, ast.Name) and x_.id in env for x_ in ast.walk(test)):
+                break
+            test = _Subst(dict(env)).visit(copy.deepcopy(test))
+        return test
+
+    def conditions(node, depth=0):
+        """-> (guards [(test, polarity)] under which `node` is evaluated, skip: it is not output text at all, complete: every way into
+        the enclosing function was followed).  Guards: enclosing `if` statements / conditional expressions / comprehension conditions /
+        `and`-`or` operands, guard clauses that left the block earlier, and -- for a helper with ONE call site -- the same at that site"""
+        guards, x, skip, complete = [], node, False, True
+        while id(x) in parents:
+            par = parents[id(x)]
+            if isinstance(par, ast.Expr) and par.value is x and isinstance(x, (ast.Constant, ast.JoinedStr)):
+                skip = True       # docstring / bare string
+            if isinstance(par, (ast.Raise, ast.Assert)) or (isinstance(par, ast.Call) and ast.unparse(par.func).split(".")[0] in ("logging", "logger", "warnings", "print")):
+                skip = True
+            if isinstance(par, ast.JoinedStr) and not any(v is x for v in par.values):
+                skip = True       # a format spec
+            if isinstance(par, ast.FormattedValue) and depth == 0:
+                skip = True       # text inside a replacement field (a dict key, a separator argument)
+            if isinstance(par, ast.Call) and x is not par.func and depth == 0:
+                # an argument: text only when handed to str.join / str.format / a list being built, or to a function of this scope
+                fn_ = par.func
+                local = (isinstance(fn_, ast.Attribute) and isinstance(fn_.value, ast.Name) and fn_.value.id in ("self", "cls", "TemplateLoader") and pkg.resolve("TemplateLoader", fn_.attr)[1] is not None) \
+                    or (isinstance(fn_, ast.Name) and ((TLOADER, fn_.id) in pkg.functions or fn_.id in mclasses))
+                if not (local or (isinstance(fn_, ast.Attribute) and fn_.attr in ("join", "format", "append", "extend", "insert"))
+                        or (isinstance(fn_, ast.Name) and fn_.id in ("list", "tuple", "filter", "str"))):
                     skip = True
-                if isinstance(par, ast.JoinedStr) and not any(v is x for v in par.values):
-                    skip = True       # a format spec
-                if isinstance(par, ast.FormattedValue):
-                    skip = True       # text inside a replacement field (a dict key, a separator argument)
-                if isinstance(par, ast.Call) and x is not par.func:
-                    # an argument: text only when handed to str.join / str.format / a list being built, or to a function of this scope
-                    fn_ = par.func
-                    local = (isinstance(fn_, ast.Attribute) and isinstance(fn_.value, ast.Name) and fn_.value.id in ("self", "cls", "TemplateLoader") and pkg.resolve("TemplateLoader", fn_.attr)[1] is not None) \
-                        or (isinstance(fn_, ast.Name) and ((TLOADER, fn_.id) in pkg.functions or fn_.id in mclasses))
-                    if not (local or (isinstance(fn_, ast.Attribute) and fn_.attr in ("join", "format", "append", "extend", "insert"))
-                            or (isinstance(fn_, ast.Name) and fn_.id in ("list", "tuple", "filter", "str"))):
-                        skip = True
-                if (isinstance(par, ast.Subscript) and x is par.slice) or (isinstance(par, ast.Compare)) or (isinstance(par, ast.Dict) and any(x is k for k in par.keys)):
-                    skip = True       # a key / an operand of a test
-                if isinstance(par, ast.IfExp) and x is not par.test:
-                    guards.append((par.test, x is par.body))
-                elif isinstance(par, ast.If) and x is not par.test:
-                    guards.append((par.test, any(x is b for b in par.body)))
-                elif isinstance(par, ast.comprehension) and x is not par.iter and x is not par.target:
-                    pass
-                elif isinstance(par, (ast.ListComp, ast.GeneratorExp, ast.SetComp, ast.DictComp)):
-                    for g in par.generators:
-                        guards += [(t, True) for t in g.ifs if t is not x]
-                x = par
-            if skip:
+            if depth == 0 and ((isinstance(par, ast.Subscript) and x is par.slice) or (isinstance(par, ast.Compare)) or (isinstance(par, ast.Dict) and any(x is k for k in par.keys))):
+                skip = True       # a key / an operand of a test
+            f_ = owner.get(id(par))
+            if isinstance(par, ast.IfExp) and x is not par.test:
+                guards.append((as_written(par.test, f_), x is par.body))
+            elif isinstance(par, ast.If) and x is not par.test:
+                guards.append((as_written(par.test, f_), any(x is b for b in par.body)))
+            elif isinstance(par, ast.BoolOp) and not any(x is v for v in par.values[:1]):
+                # `a and TEXT` is evaluated when a holds, `a or TEXT` when it does not
+                for v in par.values:
+                    if v is x:
+                        break
+                    guards.append((as_written(v, f_), isinstance(par.op, ast.And)))
+            elif isinstance(par, ast.comprehension) and x is not par.iter and x is not par.target:
+                pass
+            elif isinstance(par, (ast.ListComp, ast.GeneratorExp, ast.SetComp, ast.DictComp)):
+                for g in par.generators:
+                    guards += [(as_written(t, f_), True) for t in g.ifs if t is not x]
+            guards += [(as_written(t, f_), pol) for t, pol in _earlier_exits(par, x)]
+            x = par
+        # x is a function of the scope: the conditions under which it is called
+        if x is not root:
+            at = sites.get(id(x), [])
+            if len(at) == 1 and depth < 6:
+                g_, _, c_ = conditions(at[0], depth + 1)
+                guards += g_
+                complete = complete and c_
+            else:
+                complete = False
+        return guards, skip, complete
+    def message_only(f, node):
+        """the text is assigned to a local that is only ever handed to raise / logging / warnings / print: a message, not output"""
+        x = node
+        while id(x) in parents and not isinstance(x, ast.stmt):
+            x = parents[id(x)]
+        if not (isinstance(x, ast.Assign) and len(x.targets) == 1 and isinstance(x.targets[0], ast.Name)):
+            return False
+        loads = [y for y in ast.walk(f) if isinstance(y, ast.Name) and isinstance(y.ctx, ast.Load) and y.id == x.targets[0].id]
+
+        def in_message(y):
+            while id(y) in parents:
+                y = parents[id(y)]
+                if isinstance(y, (ast.Raise, ast.Assert)) or (isinstance(y, ast.Call) and ast.unparse(y.func).split(".")[0] in ("logging", "logger", "warnings", "print")):
+                    return True
+            return False
+        return bool(loads) and all(in_message(y) for y in loads)
+    # tests the scope makes on the window attributes (whether or not they are seen to govern a given text)
+    window_attrs = set(fixed) | set(fed)
+    window_tests = []
+    for f in scope:
+        for t in ast.walk(f):
+            tests_ = [t.test] if isinstance(t, (ast.If, ast.IfExp, ast.While)) else list(t.ifs) if isinstance(t, ast.comprehension) else [t] if isinstance(t, (ast.Compare, ast.BoolOp)) else []
+            if any(isinstance(a, ast.Attribute) and a.attr in window_attrs for t_ in tests_ for a in ast.walk(as_written(t_, f))):
+                window_tests.append(t)
+    # literal texts of the module / the class, used by name
+    named = {}
+    for st in mod.body + list(tl.node.body):
+        if isinstance(st, ast.Assign) and len(st.targets) == 1 and isinstance(st.targets[0], ast.Name) and isinstance(st.value, ast.Constant) and isinstance(st.value.value, str):
+            named[st.targets[0].id] = None if st.targets[0].id in named else st.value
+    named = {k: v for k, v in named.items() if v is not None}
+    texts = []          # (function, node standing for the text, the text, certainly output text)
+    for f in scope:
+        shadowed = {a.arg for a in ast.walk(f) if isinstance(a, ast.arg)} | {x_.id for x_ in ast.walk(f) if isinstance(x_, ast.Name) and isinstance(x_.ctx, (ast.Store, ast.Del))}
+        for node in ast.walk(f):
+            if isinstance(node, ast.Constant) and isinstance(node.value, str):
+                par = parents.get(id(node))
+                fmt = (isinstance(par, ast.Attribute) and par.attr == "format" and isinstance(parents.get(id(par)), ast.Call) and parents[id(par)].func is par) \
+                    or (isinstance(par, ast.BinOp) and isinstance(par.op, ast.Mod) and par.left is node)
+                texts.append((f, node, node.value, isinstance(par, ast.JoinedStr) or fmt))
+            elif isinstance(node, ast.Name) and isinstance(node.ctx, ast.Load) and node.id in named and node.id not in shadowed:
+                texts.append((f, node, named[node.id].value, False))
+            elif isinstance(node, ast.Attribute) and isinstance(node.ctx, ast.Load) and isinstance(node.value, ast.Name) and node.value.id in ("self", "cls", "TemplateLoader") \
+                    and node.attr in named and any(st.targets[0].id == node.attr for st in tl.node.body if isinstance(st, ast.Assign) and isinstance(st.targets[0], ast.Name)):
+                texts.append((f, node, named[node.attr].value, False))
+    for f, node, value, is_text in texts:
+        ids = [w for w in re.findall(r"[A-Za-z_]\w*", value) if w not in _C_WORDS]
+        if not ids or id(node) in handed_on:
+            continue
+        # where the text stands: not a docstring / message, and under which conditions
+        guards, skip, complete = conditions(node)
+        if skip:
+            continue
+        if message_only(f, node):
+            continue
+        used = {a.attr for t, _ in guards for a in ast.walk(t) if isinstance(a, ast.Attribute)}
+        # is this recognisably the renderer's temperature window -- governed by a test of a window attribute, or formatting one?
+        fstr = parents.get(id(node)) if isinstance(parents.get(id(node)), ast.JoinedStr) else None
+        pasted = {a.attr for v in (fstr.values if fstr is not None else []) if isinstance(v, ast.FormattedValue) for a in ast.walk(as_written(v.value, f)) if isinstance(a, ast.Attribute)}
+        window = bool((used | pasted) & window_attrs)
+        for w in ids:
+            n += 1
+            key = f"{f.name}:`{w}` in {value.strip()[:24]!r}"
+            where = (TLOADER, node.lineno)
+            if w not in rdecl:
+                if is_text and window:
+                    regs.judge(ctx, False, "R11", key + ":reactions", where, f"`{w}` is written by the renderer into the rate statements of EvalRates but is not a symbol every reaction class registers")
+                elif is_text or w not in tdecl:
+                    # (some text of a function the renderer runs: whether it ends up around a rate is not known)
+                    ctx.unrec("R11", key + ":reactions", where, f"the string {value[:30]!r} may be text the renderer writes around a rate; `{w}` is not a symbol every reaction class registers")
                 continue
-            is_text = isinstance(parents.get(id(node)), ast.JoinedStr)      # a literal part of an f-string: certainly output text
-            used = {a.attr for t, _ in guards for a in ast.walk(t) if isinstance(a, ast.Attribute)}
-            for w in ids:
-                n += 1
-                key = f"{f.name}:`{w}` in {node.value.strip()[:24]!r}"
-                where = (TLOADER, node.lineno)
-                if w not in rdecl:
-                    if is_text:
-                        regs.judge(ctx, False, "R11", key + ":reactions", where, f"`{w}` is written by the renderer into the rate statements of EvalRates but is not a symbol every reaction class registers")
-                    elif w not in tdecl:
-                        ctx.unrec("R11", key + ":reactions", where, f"the string {node.value[:30]!r} may be text the renderer writes around a rate; `{w}` is not a symbol every reaction class registers")
-                    continue
-                if w in tdecl:
-                    ctx.ok("R11", key, where, f"`{w}` is declared wherever the rate statements are pasted")
-                    continue
-                known = {a: v for a, v in fixed.items() if a not in outside}
-                if any(_tri(t, known) is (not pol) for t, pol in guards):
-                    ctx.ok("R11", key, where, f"`{w}` is written only under a condition no thermal process satisfies ({', '.join(f'{a} = {v}' for a, v in sorted(known.items()))})")
-                    continue
-                hit = None
-                decided = bool(instances) and not (set(fed) & outside)
-                for f_, ln, vals in instances:
-                    ts = [_tri(t, {**known, **vals}) for t, pol in guards]
-                    if guards and all(v is not None and v == pol for v, (t, pol) in zip(ts, guards)):
-                        hit = hit or (f_, ln, vals)
-                    elif not any(v is not None and v != pol for v, (t, pol) in zip(ts, guards)):
-                        decided = False
-                if hit is not None:
-                    hit = (hit[0], hit[1], {a: v for a, v in hit[2].items() if a in used})
-                if not is_text and (hit is not None or not guards):
-                    ctx.unrec("R11", key, where, f"the string {node.value[:30]!r} may be text the renderer writes around the rate of a thermal process, whose functions do not declare `{w}`")
-                elif hit is not None or not guards:
+            if w in tdecl:
+                ctx.ok("R11", key, where, f"`{w}` is declared wherever the rate statements are pasted")
+                continue
+            known = {a: v for a, v in fixed.items() if a not in outside}
+            if any(_tri(t, known) is (not pol) for t, pol in guards):
+                ctx.ok("R11", key, where, f"`{w}` is written only under a condition no thermal process satisfies ({', '.join(f'{a} = {v}' for a, v in sorted(known.items()))})")
+                continue
+            hit = None
+            decided = bool(instances) and not (set(fed) & outside)
+            for f_, ln, vals in instances:
+                ts = [_tri(t, {**known, **vals}) for t, pol in guards]
+                if guards and all(v is not None and v == pol for v, (t, pol) in zip(ts, guards)):
+                    hit = hit or (f_, ln, vals)
+                elif not any(v is not None and v != pol for v, (t, pol) in zip(ts, guards)):
+                    decided = False
+            if hit is not None:
+                hit = (hit[0], hit[1], {a: v for a, v in hit[2].items() if a in used})
+            # positive evidence: every condition on the way to the text is read and holds for a thermal process of the package; or
+            # there is no condition at all on the way AND the renderer tests the window attributes nowhere
+            unconditional = not guards and not window_tests
+            if hit is not None or not guards:
+                if is_text and complete and (hit is not None or unconditional):
                     ctx.bad("R11", key, where, f"the renderer writes `{w}` into the rate statements" + (f" of the thermal process built at {hit[0]}:{hit[1]} ({hit[2]})" if hit else " of every process") +
                             f": EvalHeatingRates / EvalCoolingRates declare only what ThermalProcess registers ({sorted(x.text for x in regs['ThermalProcess'])}), `{w}` is undeclared there",
                             expected="thermal processes without the renderer's temperature window (temp_min = temp_max = -1.0), or the symbol registered by ThermalProcess",
                             found=f"{ast.unparse(guards[0][0])[:60]} holds for that process" if hit else "unconditional text")
-                elif decided:
-                    ctx.ok("R11", key, where, f"`{w}` is written only under a condition none of the {len(instances)} thermal processes of the package satisfies")
                 else:
-                    ctx.unrec("R11", key, where, f"`{w}` is written by the renderer under {[ast.unparse(t)[:50] for t, _ in guards]}: cannot tell whether a thermal process (whose functions do not declare `{w}`) can satisfy that")
+                    ctx.unrec("R11", key, where, f"the string {value[:30]!r} may be text the renderer writes around the rate of a thermal process, whose functions do not declare `{w}`"
+                              + ("" if guards else ": the condition under which it is written is not seen"))
+            elif decided:
+                ctx.ok("R11", key, where, f"`{w}` is written only under a condition none of the {len(instances)} thermal processes of the package satisfies")
+            else:
+                ctx.unrec("R11", key, where, f"`{w}` is written by the renderer under {[ast.unparse(t)[:50] for t, _ in guards]}: cannot tell whether a thermal process (whose functions do not declare `{w}`) can satisfy that")
     ctx.floor("R11", "identifiers written by the renderer around a rate", n, 2)
 
 
